@@ -7,7 +7,7 @@ FAMILIES = [
 ]
 RULE = ("bridge_oracle: L1 histories on the real oracle/ethbridge keepers of a full SifchainApp with a real staking keeper: 1-8 validators "
         "with chosen powers (ties, zero power, boundary vectors 10p-7t in {-1,0,1,..}, totals up to 2^48), bonded flags, whitelists with "
-        "duplicates / non-validators, administrative transactions of two messages on one cache context written only if both succeed (whitelist edit + failing or succeeding second message) followed by a claim of the validator concerned, block steps that run the real oracle / ethbridge EndBlock and BeginBlock hooks and jump 1, 10, 100800, 100801 or 10^6 blocks ahead (late and replayed claims after them), restarts from the exported genesis, validator / signer / receiver address fields in the canonical or the all-upper-case bech32 spelling (same bytes), admin add/remove and staking changes interleaved with claims, 1-3 events with 1-3 contents each, late and "
+        "duplicates / non-validators, the staking lifecycle with the real staking keeper between claims (Jail: out of the power index at once while status stays Bonded; Unjail; the EndBlocker's validator-set update), the threshold judged against the power-index view (GetBondedValidatorsByPower) of the stored state, administrative transactions of two messages on one cache context written only if both succeed (whitelist edit + failing or succeeding second message) followed by a claim of the validator concerned, block steps that run the real oracle / ethbridge EndBlock and BeginBlock hooks and jump 1, 10, 100800, 100801 or 10^6 blocks ahead (late and replayed claims after them), restarts from the exported genesis, validator / signer / receiver address fields in the canonical or the all-upper-case bech32 spelling (same bytes), admin add/remove and staking changes interleaved with claims, 1-3 events with 1-3 contents each, late and "
         "duplicate claims; every history executed 8x in-process, the raw bytes of the oracle and ethbridge stores digested after each execution and compared with the first (storeBytesSame) (Go map order re-rolled). Directed: the F2 shape, de-whitelisted claimants on both "
         "sides, threshold boundaries, zero total power, the same validator claiming twice under two spellings with 40 % power. After every message the canonical state (whitelist, prophecies with both claim maps, peggy "
         "list, pause, fee receiver, blacklist, all balances, supply) is compared with the Lean model; chk lines evaluate Spec.C05.prophecyWF / "
@@ -17,7 +17,7 @@ TRUSTED_BASE = [
     "hand-written Lean model of x/oracle and x/ethbridge (Sif/Model/Oracle.lean, EthBridge.lean, BridgeBank.lean), tied by the regenerated facts "
     "of Sif/Generated/BridgeConsts.lean (threshold constant and its use in app.go, comparison operators, guard and error order of ProcessClaim, "
     "whitelist guard of the tally) and by differential execution against the real keepers",
-    "x/staking is environment: the validator set (operator, PotentialConsensusPower, IsBonded) is an input of every step; GetBondedValidatorsByPower "
+    "x/staking is environment: the validator set (operator, PotentialConsensusPower, counted by GetBondedValidatorsByPower, IsBonded) is an input of every step, observed from the real staking keeper after real Jail / Unjail / validator-set updates; GetBondedValidatorsByPower "
     "is assumed to return exactly the bonded validators (<= MaxValidators = 100) with distinct operator addresses",
     "json.Marshal/Unmarshal of OracleClaimContent is injective and round-trips on (receiver, amount, symbol, token contract, claim type)",
     "IEEE-754: F64.sigDiv is the correctly rounded double quotient for quotients in [1/2,1); Go converts integers below 2^53 exactly",
